@@ -16,6 +16,44 @@ import time
 H = "h_tsafe"
 TSAN_EXTRA = ("-DTSAFE_TSAN", "-fsanitize=thread")
 TSAN_NAME = "h_tsafe_tsan"
+LL_NAME = "h_tsafe_ll"
+LL_SOURCES = ("heap_allocator.cpp", "malloc_allocator.cpp", "new_allocator.cpp", "virtual_memory.cpp")
+
+
+def _build_ll(cfg):
+    """h_tsafe with -DTSAFE_LL, linked in front of libfm.a with the library's four low-level allocator TUs compiled from
+    the working tree with engine/atomic_shim.hpp force-included (every atomic operation = scheduling point)"""
+    import hashlib
+    import vlib
+    vlib.build_lib(cfg)
+    shim = os.path.join(vlib.VERIF, "engine", "atomic_shim.hpp")
+    flags = ["-std=c++17", "-O1", "-g", "-fPIC", "-w"] + vlib.BASE_DEFS + ["-include", shim]
+    flags += vlib.inc_flags(cfg, os.path.join(vlib.VERIF, "engine", "stub"))
+    key = hashlib.sha256((vlib.repo_hash() + cfg + " ".join(flags) + open(shim).read()).encode()).hexdigest()[:16]
+    base = os.path.join(vlib.BUILD, "obj", "tsafe_ll_shim-" + cfg)
+    d = os.path.join(base, key)
+    objs = [os.path.join(d, f.replace(".cpp", ".shim.o")) for f in LL_SOURCES]
+    if not all(os.path.exists(o) for o in objs):
+        vlib._prune(base, key)
+        os.makedirs(d, exist_ok=True)
+        import concurrent.futures as cf
+
+        def one(fo):
+            f, o = fo
+            return f, o, vlib.sh([vlib.CXX] + flags + ["-c", os.path.join(vlib.REPO, "src", f), "-o", o + ".tmp"])
+
+        with cf.ThreadPoolExecutor(4) as ex:
+            for f, o, r in list(ex.map(one, zip(LL_SOURCES, objs))):
+                if r.returncode != 0:
+                    raise vlib.BuildError(f"src/{f} does not compile in configuration {cfg} with engine/atomic_shim.hpp "
+                                          f"force-included:\n{r.stdout[-3000:]}")
+                os.rename(o + ".tmp", o)
+    # object files among the flags: linked before the harness TU and libfm.a, so their definitions win
+    return vlib.build_harness(f"harness/{H}.cpp", cfg, extra=tuple(objs) + ("-DTSAFE_LL",), name=LL_NAME)
+
+
+def _replay_ll(js, cfg="dbg"):
+    return subprocess.run([_build_ll(cfg), "--replay", js]).returncode
 
 
 def _jobs(tier):
@@ -44,6 +82,10 @@ def _jobs(tier):
         for s in storages:
             add("dbg", s, "stateful", "2x2", INF)            # all ordered pairs, every schedule
             add("dbg", s, "stateful", "2x1", INF)            # all pairs, every schedule
+        for s in storages:
+            add("dbg", s, "empty", "3x1", INF, parts=2)      # empty class with is_stateful = true_type: locked like any stateful one
+            add("dbg", s, "empty", "2x2", INF)
+            add("dbg", s, "empty", "2x1", INF)
         for s in ("direct", "ref"):
             add("dbg", s, "stateless", "3x1", INF)
             add("dbg", s, "stateless", "2x2", INF)
@@ -57,11 +99,20 @@ def _jobs(tier):
                 add(cfg, s, "stateful", "2x3", INF)
                 add(cfg, s, "stateful", "2x2", INF)
                 add(cfg, s, "stateful", "2x1", INF)
+                add(cfg, s, "empty", "3x1", INF, parts=2)
+                add(cfg, s, "empty", "2x3", INF)
+                add(cfg, s, "empty", "2x2", INF)
+                add(cfg, s, "empty", "2x1", INF)
             for s in ("direct", "ref"):
                 add(cfg, s, "stateless", "3x1", INF)
                 add(cfg, s, "stateless", "2x2", INF)
         add("rel", "any", "stateful", "3x2", 3, parts=8)
+        for s in storages:
+            add("dbg", s, "empty", "3x2", 3, parts=4)
     jobs.append(J(H, "dbg", "--selftest", name="selftest[dbg]"))
+    # stateless low-level allocators: shared leak balance under all schedules (needs a configuration with leak checking)
+    for cfg in (("dbg",) if tier == "quick" else ("dbg", "rwd")):
+        jobs.append(J(LL_NAME, cfg, "--ll", name=f"lowlevel-leak-balance[{cfg}]"))
     return jobs
 
 
@@ -88,9 +139,11 @@ def check(prop, tier, only):
         jobs = [j for j in jobs if only in j["name"]]
     # build (BuildError of the plain harness propagates: the tree does not compile)
     exes = {}
-    cfgs = sorted({j["cfg"] for j in jobs})
-    with cf.ThreadPoolExecutor(4) as ex:
+    cfgs = sorted({j["cfg"] for j in jobs if j["h"] == H})
+    ll_cfgs = sorted({j["cfg"] for j in jobs if j["h"] == LL_NAME})
+    with cf.ThreadPoolExecutor(6) as ex:
         futs = {ex.submit(vlib.build_harness, f"harness/{H}.cpp", cfg): cfg for cfg in cfgs}
+        futs.update({ex.submit(_build_ll, cfg): ("ll", cfg) for cfg in ll_cfgs})
         want_tsan = (not only) or (only in "tsan-side-run[dbg]")
         ftsan = ex.submit(vlib.build_harness, f"harness/{H}.cpp", "dbg", extra=TSAN_EXTRA, name=TSAN_NAME) if want_tsan else None
         for f in cf.as_completed(futs):
@@ -104,7 +157,8 @@ def check(prop, tier, only):
         else:
             tsan_state = "filtered out"
     budget = 100 if tier == "quick" else 1000
-    argv_jobs = [(j["name"], [exes[j["cfg"]]] + shlex.split(j["args"]) + ["--tier", tier, "--time_s", str(budget)]) for j in jobs]
+    argv_jobs = [(j["name"], [exes[j["cfg"] if j["h"] == H else ("ll", j["cfg"])]] + shlex.split(j["args"])
+                  + ["--tier", tier, "--time_s", str(budget)]) for j in jobs]
     if tsan_exe:
         os.environ.setdefault("TSAN_OPTIONS", "exitcode=0")
         jobs.append(checks.J(H, "dbg", "--tsan", name="tsan-side-run[dbg]"))
@@ -192,6 +246,10 @@ def check(prop, tier, only):
                     continue
                 rec = {"property": prop, "kind": "command", "tag": tag, "detail": v["detail"], "input": v["input"],
                        "fingerprint": fp, "argv": [sys.executable, "scripts/check_C13.py", "--replay-tsan", arg]}
+            elif j["h"] == LL_NAME:
+                arg = json.dumps(v["input"])
+                rec = {"property": prop, "kind": "command", "tag": tag, "detail": v["detail"], "input": v["input"], "cfg": j["cfg"],
+                       "fingerprint": fp, "argv": [sys.executable, "scripts/check_C13.py", "--replay-ll", arg, j["cfg"]]}
             else:
                 rec = {"property": prop, "kind": "enum", "harness": H, "cfg": j["cfg"], "args": "", "tag": tag,
                        "detail": v["detail"], "input": v["input"], "fingerprint": fp}
@@ -228,7 +286,11 @@ def check(prop, tier, only):
                        "happens with the instrumented mutex owned by the calling thread, never two threads inside, final allocator "
                        "state == number of calls (split read-modify-write: a missing lock is a lost update), all returned "
                        "addresses distinct, mutex free at the end with #lock == #unlock and no unlock by a non-owner, no deadlock; "
-                       "stateless allocator: no mutex object and no lock call at all (direct and reference storage).",
+                       "stateless allocator: no mutex object and no lock call at all (direct and reference storage). alloc 'empty' = an "
+                       "empty class declaring is_stateful = true_type (state global): judged exactly like 'stateful'. shape 'll' = "
+                       "heap/malloc/new/virtual_memory allocator used concurrently without a lock, scheduling point before every "
+                       "atomic operation of their library TUs (atomic shim): the shared leak balance must return to its start "
+                       "value in every schedule.",
     }
     recs = list(viol.values())
     vlib.write_evidence(prop, tier, "model_checking", cov, wall, len(recs), assumptions=[
@@ -263,5 +325,7 @@ if __name__ == "__main__":
     sys.path.insert(0, os.path.dirname(os.path.abspath(__file__)))
     if len(sys.argv) >= 3 and sys.argv[1] == "--replay-tsan":
         sys.exit(_replay_tsan(sys.argv[2]))
+    if len(sys.argv) >= 3 and sys.argv[1] == "--replay-ll":
+        sys.exit(_replay_ll(sys.argv[2], sys.argv[3] if len(sys.argv) > 3 else "dbg"))
     print("usage: check_C13.py --replay-tsan '<json>'")
     sys.exit(2)
